@@ -22,6 +22,10 @@ class ConvergenceCriteria:
         self.compute_mc_paths = compute_mc_paths
 
 
+# share of rmse^2 granted to the squared bias (weak error); the variance of the estimator gets the rest
+THETA = 0.25
+
+
 def compute_mc_paths_giles(rmse: float, vl: np.array, cl: np.array) -> np.array:
     """Same as in Giles papers
     :param rmse: root-mean square error
@@ -29,7 +33,7 @@ def compute_mc_paths_giles(rmse: float, vl: np.array, cl: np.array) -> np.array:
     :param cl: cost of each level l
     :return: the updated number of Monte-Carlo paths for each level l
     """
-    theta = 0.25
+    theta = THETA
     cl_zerocost = cl.copy()
     cl_zerocost[
         cl_zerocost == 0
@@ -52,7 +56,8 @@ def criteria_giles(alpha: float, ml: np.array, rmse: float) -> bool:
     rem = max(m / 2 ** (k * alpha) for k, m in enumerate(last_corrections)) / (
         2**alpha - 1
     )
-    return rem <= rmse / np.sqrt(2)
+    # the bias may use the share of rmse^2 that the sample sizes leave to it
+    return rem <= np.sqrt(THETA) * rmse
 
 
 def criteria_run_to_maximum_level(alpha: float, ml: np.array, rmse: float) -> bool:
